@@ -111,6 +111,8 @@ type vfdNet struct {
 	maxLatNs   atomic.Int64 // max (delivery end - send) over bundles since the last reset
 	nPanics    atomic.Int64
 	nStuck     atomic.Int64
+	tmu        sync.Mutex
+	tm         vfdTiming
 	// onPanic is told about a panic of the real code inside a delivery (what, destination, panic value, the
 	// innermost frame of package dkg, full stack). The delivery is then answered with an error.
 	onPanic func(what, dst, val, where, stack string)
@@ -144,8 +146,141 @@ func vfdPanicWhere(stack string) string {
 	return "unknown"
 }
 
+// vfdTiming: when the packets that drive the time-phased protocol were handed to each node in the current epoch.
+// The DKG is a synchronous protocol: a node that gets the execute packet at time e starts at max(kick-off, e) and
+// ends its deal / response / justification phase one, two, three phase time-outs later at the latest; a bundle
+// handed over after that is outside the protocol's assumptions, and so is every verdict about agreement.
+type vfdTiming struct {
+	T0          time.Time            // kick-off time named in the execute packet
+	ExecIn      map[string]time.Time // dst -> first hand-over (start of the call) of the execute packet
+	LastDone    map[string][3]time.Time // dst -> latest return of the FIRST hand-over of each distinct deal / resp / just bundle
+	FirstRespIn map[string]time.Time // dst -> first hand-over (start of the call) of a response bundle
+	seen        map[string]bool
+}
+
+func (n *vfdNet) resetTiming() {
+	n.tmu.Lock()
+	n.tm = vfdTiming{ExecIn: map[string]time.Time{}, LastDone: map[string][3]time.Time{}, FirstRespIn: map[string]time.Time{}}
+	n.tmu.Unlock()
+}
+
+func (n *vfdNet) timing() vfdTiming {
+	n.tmu.Lock()
+	defer n.tmu.Unlock()
+	out := vfdTiming{T0: n.tm.T0, ExecIn: map[string]time.Time{}, LastDone: map[string][3]time.Time{}, FirstRespIn: map[string]time.Time{}}
+	for k, v := range n.tm.ExecIn {
+		out.ExecIn[k] = v
+	}
+	for k, v := range n.tm.LastDone {
+		out.LastDone[k] = v
+	}
+	for k, v := range n.tm.FirstRespIn {
+		out.FirstRespIn[k] = v
+	}
+	return out
+}
+
+func (n *vfdNet) noteKickoff(t time.Time) {
+	n.tmu.Lock()
+	if n.tm.T0.IsZero() {
+		n.tm.T0 = t
+	}
+	n.tmu.Unlock()
+}
+
+func (n *vfdNet) noteHandover(what, dst string, in bool) {
+	now := time.Now()
+	n.tmu.Lock()
+	defer n.tmu.Unlock()
+	if n.tm.ExecIn == nil {
+		return
+	}
+	switch what {
+	case "gossip:Execute":
+		if in {
+			if _, ok := n.tm.ExecIn[dst]; !ok {
+				n.tm.ExecIn[dst] = now
+			}
+		}
+	case "bundle:deal", "bundle:resp", "bundle:just":
+		k := map[string]int{"bundle:deal": 0, "bundle:resp": 1, "bundle:just": 2}[what]
+		if in {
+			if k == 1 {
+				if _, ok := n.tm.FirstRespIn[dst]; !ok {
+					n.tm.FirstRespIn[dst] = now
+				}
+			}
+		}
+	}
+}
+
+// noteBundleDone: the hand-over of a bundle to dst has returned; only the first copy of each distinct bundle counts
+// (echoes and duplicates of a bundle the node already has are harmless whenever they arrive).
+func (n *vfdNet) noteBundleDone(dst, kind string, in *pdkg.DKGPacket) {
+	k, ok := map[string]int{"deal": 0, "resp": 1, "just": 2}[kind]
+	if !ok {
+		return
+	}
+	raw, err := proto.MarshalOptions{Deterministic: true}.Marshal(in)
+	if err != nil {
+		return
+	}
+	h := sha256.Sum256(raw)
+	key := dst + "|" + string(h[:])
+	now := time.Now()
+	n.tmu.Lock()
+	defer n.tmu.Unlock()
+	if n.tm.ExecIn == nil {
+		return
+	}
+	if n.tm.seen == nil {
+		n.tm.seen = map[string]bool{}
+	}
+	if n.tm.seen[key] {
+		return
+	}
+	n.tm.seen[key] = true
+	a := n.tm.LastDone[dst]
+	if now.After(a[k]) {
+		a[k] = now
+	}
+	n.tm.LastDone[dst] = a
+}
+
+// synchronyKept: no bundle of the epoch was handed to a participant later than `margin` before the end of the
+// phase it belongs to on that participant's own (earliest possible) schedule. "" when kept, else what was late.
+func (n *vfdNet) synchronyKept(addrs []string, leader string, phase, margin time.Duration) string {
+	tm := n.timing()
+	if tm.T0.IsZero() {
+		return ""
+	}
+	for _, a := range addrs {
+		start := tm.T0
+		if e, ok := tm.ExecIn[a]; ok && e.After(start) {
+			start = e
+		}
+		ld, ok := tm.LastDone[a]
+		if !ok {
+			continue
+		}
+		for k, name := range []string{"deal", "resp", "just"} {
+			if ld[k].IsZero() {
+				continue
+			}
+			end := start.Add(time.Duration(k+1) * phase)
+			if ld[k].After(end.Add(-margin)) {
+				return fmt.Sprintf("a %s bundle was handed to %s %v after its start (phase ends %v after it, margin %v)", name, a, ld[k].Sub(start).Round(time.Millisecond), time.Duration(k+1)*phase, margin)
+			}
+		}
+	}
+	_ = leader
+	return ""
+}
+
 // guard runs f (a call into the real Process) and converts a panic into an error + onPanic notification.
 func (n *vfdNet) guard(what, dst string, f func() error) (err error) {
+	n.noteHandover(what, dst, true)
+	defer n.noteHandover(what, dst, false)
 	defer func() {
 		if r := recover(); r != nil {
 			st := string(debug.Stack())
@@ -458,6 +593,9 @@ func (c *vfdClient) Packet(_ context.Context, p net.Peer, packet *pdkg.GossipPac
 	n := c.net
 	defer n.begin()()
 	dst := p.Address()
+	if ex := packet.GetExecute(); ex != nil && ex.GetTime() != nil {
+		n.noteKickoff(ex.GetTime().AsTime())
+	}
 	n.mu.Lock()
 	s := n.sched
 	delay := 0
@@ -631,6 +769,7 @@ func (c *vfdClient) BroadcastDKG(_ context.Context, p net.Peer, in *pdkg.DKGPack
 		if err != nil {
 			n.nBundleErr.Add(1)
 		}
+		n.noteBundleDone(dst, kind, in)
 		lat := time.Since(sent).Nanoseconds()
 		for {
 			old := n.maxLatNs.Load()
@@ -936,6 +1075,7 @@ type vfdWrite struct {
 	ArgEpoch  uint32
 	Arg       *DBState // the object handed to the store (only valid inside onWrite)
 	At        time.Time // when the write had returned from the real store
+	At0       time.Time // when the write was about to be handed to the real store
 	Err       error
 	CurBefore []byte
 	FinBefore []byte
@@ -971,6 +1111,7 @@ func (s *vfdStoreTap) write(id string, st *DBState, finished bool) error {
 		w.ArgState, w.ArgEpoch, w.Arg = st.State, st.Epoch, st
 	}
 	w.CurBefore, w.FinBefore = vfdRaw(s.inner, id)
+	w.At0 = time.Now()
 	if finished {
 		w.Err = s.inner.SaveFinished(id, st)
 	} else {
@@ -990,6 +1131,19 @@ func (s *vfdStoreTap) write(id string, st *DBState, finished bool) error {
 
 func (s *vfdStoreTap) SaveCurrent(id string, st *DBState) error  { return s.write(id, st, false) }
 func (s *vfdStoreTap) SaveFinished(id string, st *DBState) error { return s.write(id, st, true) }
+
+// finishedEntered: the instant at which the node's successful SaveFinished of `epoch` was entered (zero when none).
+func (s *vfdStoreTap) finishedEntered(epoch uint32) time.Time {
+	s.mu.Lock()
+	defer s.mu.Unlock()
+	var at time.Time
+	for _, w := range s.writes {
+		if w.Finished && w.Err == nil && w.ArgEpoch == epoch && w.ArgState == Complete {
+			at = w.At0
+		}
+	}
+	return at
+}
 
 // finishedAt: the instant at which the node's successful SaveFinished of `epoch` returned (zero when none).
 func (s *vfdStoreTap) finishedAt(epoch uint32) time.Time {
